@@ -1,7 +1,3 @@
-OPEN "a.txt" FOR RANDOM AS #1 LEN = 4
-FIELD #1, 4 AS F1$
-GET #1, 1
-PRINT "{"; F1$; "}"
-LSET F1$ = "wxyz"
-PUT #1, 2
-PRINT "end"
+OPEN "a.txt" FOR OUTPUT AS #1
+PRINT #1, "p" + CHR$(200) + "q"
+PUT #1, 1
